@@ -12,7 +12,7 @@ those places are the open findings; an accepted mutant with any other attributio
 import os, sys, random, collections, json, hashlib
 import vlib, progen, langlib
 import tc_common as T
-import c02
+import c02, scope_witnesses
 
 TOOLS = ('run', 'emit', 'nanoc')
 PIPE_TOOL = dict(run='virt-run', emit='virt-emit', nanoc='nanoc')
@@ -23,7 +23,7 @@ def witness_sources():
     F1 = 'fn f1(v2: int) -> int {\n    return v2\n}\nshadow f1 { assert true }\n'
     def main(body, pre=F1):
         return pre + 'fn main() -> int {\n' + body + '\n    return 0\n}\nshadow main { assert true }\n'
-    return {
+    W = {
         'order-operands-unchecked': main('    let v5: bool = (< 1 true)\n    (println v5)'),
         'equality-operands-unchecked': main('    let v5: bool = (== 1 true)\n    (println v5)'),
         'logic-operands-unchecked': main('    let v5: bool = (and 1 2)\n    (println v5)'),
@@ -62,6 +62,9 @@ def witness_sources():
         'redefine-builtin-exit-crash': 'fn exit(v: int) -> int {\n    return (+ v 1)\n}\nshadow exit { assert (== (exit 1) 2) }\n'
                                        'fn main() -> int {\n    (println (exit 2))\n    return 0\n}\nshadow main { assert true }\n',
     }
+    # symbol-table attributes that must not leak across functions / blocks (ill-formed variants: must be refused)
+    W.update(scope_witnesses.ill())
+    return W
 
 
 def handwritten_programs():
@@ -120,8 +123,12 @@ def run(ck):
         progs = handwritten_programs()          # deterministic shapes first (else-if chains, nested control): their mutants are always present
         nprog += len(progs)
         for i in range(nprog - len(progs)):
-            g = progen.Gen(random.Random(ck.seed * 6151 + i), cfg)
+            # every second program re-uses names of earlier functions' locals/parameters (other mutability / type): scoping is per function
+            cfg_i = cfg if i % 2 == 0 else progen.Cfg(**dict(cfg.__dict__, reuse_names_across_fns=True))
+            g = progen.Gen(random.Random(ck.seed * 6151 + i), cfg_i)
             progs.append(g.gen_program())
+            for f_ in ('name_reuse_across_fns', 'name_reuse_other_mutability_now_immutable', 'name_reuse_other_mutability_now_mutable', 'name_reuse_other_type'):
+                ck.extra.setdefault('name_reuse', {})[f_] = ck.extra.get('name_reuse', {}).get(f_, 0) + g.feat.get(f_, 0)
         sx = [progen.to_sexp(p) for p in progs]
         wts = T.model_wt(nv, sx)
         for i, ok in enumerate(wts):
